@@ -36,12 +36,15 @@ FMT_ARGS_NEW = re.compile(r"std::fmt::Arguments::(new|new_const|new_v1|new_v1_fo
 
 
 class StrFlow:
-    def __init__(self, fx, source_rx, name_rx=None, inline_crates=(), max_depth=7):
+    def __init__(self, fx, source_rx, name_rx=None, inline_crates=(), max_depth=7, mark_rx=None, field_adts=None):
         self.fx = fx
         self.source_rx = re.compile(source_rx)
         self.name_rx = re.compile(name_rx) if name_rx else None
         self.inline_crates = set(inline_crates)
         self.max_depth = max_depth
+        self.mark_rx = re.compile(mark_rx) if mark_rx else None
+        self.field_adts = re.compile(field_adts) if field_adts else None
+        self._field_writes = None
         self.memo = {}
         self._keep = []   # keep env dicts alive so that id(env) stays unique
         self.fmt_index = {}
@@ -72,7 +75,47 @@ class StrFlow:
             p = op_place(o)
         else:
             p = o
+        if self.field_adts is not None:
+            for el in pl_proj(p):
+                if isinstance(el, str) and el.startswith(".") and "@" in el:
+                    fname, adt = el[1:].split("@", 1)
+                    if self.field_adts.search(adt):
+                        key = ("field", adt, fname)
+                        if key in stack:
+                            return ("rec",)
+                        ws = self.field_writes().get((adt, fname), [])
+                        alts = [self.tree(wb, wo, {}, depth, stack + (key,)) for wb, wo in ws]
+                        if not alts:
+                            return ("unknown", "no writes of %s.%s" % (adt, fname))
+                        return ("alt", alts) if len(alts) > 1 else alts[0]
+                    break
         return self.local_tree(body, pl_local(p), pl_proj(p), env or {}, depth, stack)
+
+    def field_writes(self):
+        """(adt, field) -> [(body, operand)] over every aggregate construction and field assignment."""
+        if self._field_writes is None:
+            fw = {}
+            for c in self.fx.crates.values():
+                if c.name not in self.inline_crates:
+                    continue
+                for b in c.bodies:
+                    for i, j, s in b.stmts():
+                        if s["k"] != "assign":
+                            continue
+                        rv = s["rv"]
+                        if rv["k"] == "agg" and rv.get("ak") == "adt" and self.field_adts.search(rv["adt"]):
+                            for fn_, o in zip(rv["fields"], rv["ops"]):
+                                fw.setdefault((rv["adt"], fn_), []).append((b, o))
+                        pl = s["place"]
+                        if not isinstance(pl, int):
+                            for el in pl[1:]:
+                                if isinstance(el, str) and el.startswith(".") and "@" in el:
+                                    fname, adt = el[1:].split("@", 1)
+                                    if self.field_adts.search(adt) and rv["k"] in ("use", "cast", "ref"):
+                                        fw.setdefault((adt, fname), []).append((b, rv.get("op") or rv.get("place")))
+                                    break
+            self._field_writes = fw
+        return self._field_writes
 
     def promoted(self, body, pi):
         pb = body.j.get("promoted", [])
@@ -278,6 +321,35 @@ class StrFlow:
             return ("src", q, where)
         if self.name_rx and self.name_rx.search(q):
             return ("name", q, where)
+        if re.search(r"box_assume_init_into_vec_unsafe$|slice::<impl \[T\]>::into_vec$|\[T\]::into_vec$", q) and c.args:
+            # vec![a, b, c]: Box::new_uninit(); *ptr = [a, b, c]; box_assume_init_into_vec_unsafe(box)
+            al = {op_local(c.args[0])}
+            # backwards: the box may have been moved into the argument temp
+            work = [op_local(c.args[0])]
+            while work:
+                x = work.pop()
+                for (bb_, idx_, lhs_, rhs_) in body.def_sites(x):
+                    if not isinstance(rhs_, Call) and rhs_["k"] in ("use", "cast") and op_place(rhs_["op"]) is not None:
+                        y = op_local(rhs_["op"])
+                        if y not in al:
+                            al.add(y)
+                            work.append(y)
+            changed = True
+            while changed:
+                changed = False
+                for i, j, st in body.stmts():
+                    if st["k"] == "assign" and isinstance(st["place"], int) and st["place"] not in al:
+                        if any(pl_local(pp) in al for pp in rv_places(st["rv"])) and st["rv"]["k"] in ("use", "cast", "ref", "rawptr"):
+                            al.add(st["place"])
+                            changed = True
+            items = []
+            for i, j, st in body.stmts():
+                if st["k"] == "assign" and not isinstance(st["place"], int) and pl_local(st["place"]) in al and st["rv"]["k"] == "agg" and st["rv"]["ak"] == "array":
+                    items.extend(self.tree(body, o, env, depth, stack) for o in st["rv"]["ops"])
+            if items:
+                return ("iter", ("alt", items) if len(items) > 1 else items[0])
+        if self.mark_rx and self.mark_rx.search(q) and c.args:
+            return ("mark", q, self.tree(body, c.args[0], env, depth, stack), where)
         if re.search(r"^str::replace$|^str::replacen$", q):
             pat = c.args[1]
             rep = c.args[2]
@@ -357,6 +429,8 @@ def show(t, d=0, maxd=12):
         return pad + "fmt @%s\n" % t[2] + "\n".join((pad + "  lit %r" % i) if isinstance(i, str) else show(i, d + 1, maxd) for i in t[1])
     if k == "repl":
         return pad + "repl %r -> %r\n%s" % (t[1], t[2], show(t[3], d + 1, maxd))
+    if k == "mark":
+        return pad + "mark %s\n%s" % (t[1].split("::")[-1], show(t[2], d + 1, maxd))
     if k in ("cat", "alt"):
         return pad + k + "\n" + "\n".join(show(i, d + 1, maxd) for i in t[1])
     if k == "iter":
@@ -383,6 +457,8 @@ def has_src(t, _seen=None):
         return any(has_src(i, _seen) for i in t[1] if not isinstance(i, str))
     if k == "repl":
         return has_src(t[3], _seen)
+    if k == "mark":
+        return has_src(t[2], _seen)
     if k in ("cat", "alt"):
         return any(has_src(i, _seen) for i in t[1])
     if k == "iter":
